@@ -943,11 +943,14 @@ def diff_helper(func, arr, *args, **kwargs):
 def _boundary_values_in(units, args, kwargs):
     # prepend/append (np.diff) and to_end/to_begin (np.ediff1d) take part in the
     # result like the array's own elements: express them in its unit, or refuse
-    args = tuple(v.to_value(units) if isinstance(v, unyt_array) else v for v in args)
-    kwargs = {
-        k: v.to_value(units) if isinstance(v, unyt_array) else v
-        for k, v in kwargs.items()
-    }
+    def in_units(v):
+        if isinstance(v, (list, tuple)) and any(isinstance(o, unyt_array) for o in v):
+            # a list of quantities is a quantity
+            v = unyt_array(v)
+        return v.to_value(units) if isinstance(v, unyt_array) else v
+
+    args = tuple(in_units(v) for v in args)
+    kwargs = {k: in_units(v) for k, v in kwargs.items()}
     return args, kwargs
 
 
